@@ -17,5 +17,6 @@ CONSTANTS
   GuardPerClient = FALSE
   RearmPerRead = FALSE
   NoCloseOnError = FALSE
+  RearmAfterConnect = FALSE
 CHECK_DEADLOCK FALSE
 CONSTRAINT Export
